@@ -417,7 +417,9 @@ static void scenario(const char *name, uint64_t seed)
             o->op = choices[rnd(nc)];
             o->k = 1 + rnd(3);
             if (o->op == O_POPWAIT || o->op == O_POPTIMED)
-                o->k = 1 + rnd(4); /* microseconds of (virtual) waiting */
+                /* microseconds of (virtual) waiting; now and then the time is already up when
+                 * the call is made: the pool is still looked at once */
+                o->k = rnd(4) ? 1 + rnd(4) : -rnd(2000);
         }
     }
 launch:
